@@ -281,8 +281,39 @@ Non-trivial = at least 3 clause kinds and an effect that is neither empty nor ev
     ctx.assumptions.push(format!("SQLite engine {} (system library) is the oracle's executor; the reference rendering is written in stmt_ref.rs", crate::sqlite::version()));
     ctx.domain_restrictions.push("IS / IS NOT: a boolean right operand is written as the keyword in both modes (the bound form is the known finding is-with-bound-boolean, demonstrated by its own reproducer, not re-searched); other constant right operands are NULL".into());
     ctx.domain_restrictions.push("engine-imposed: LIMIT / OFFSET always with a total ORDER BY; set-operation arms without ORDER BY / LIMIT; ORDER BY of a compound select names result columns; window ORDER BY made total; INSERT..SELECT + ON CONFLICT gets a WHERE; LATERAL, locks, SEARCH / CYCLE are not SQLite features; a recursive CTE has one fixed terminating shape (base rows UNION ALL one more row per base row)".into());
+    // float values in arithmetic: the inline literal must denote the real number that the bound value is (2.0 is not 2)
+    ctx.run_list("float-values", &float_cases(), &check);
     let n = ctx.tier.pick(250_000, 5_000_000);
     ctx.run_proptest("statements", n, &case_strategy, &check);
+}
+
+fn float_cases() -> Vec<Case> {
+    use crate::expr_spec::{Op, E, VS};
+    let mut v = vec![];
+    let values: [f64; 9] = [2.0, 1.0, 0.5, -3.0, 1e3, 2.5, 1e15, 4.0, 0.0];
+    let ops = [Op::Div, Op::Mul, Op::Add, Op::Sub, Op::Eq, Op::Lt];
+    for x in values {
+        for op in ops {
+            for single in [false, true] {
+                // an f32 is bound to SQLite widened to a double; only values whose shortest decimal text denotes the same double
+                // are comparable (1e15 is not exactly representable as f32)
+                if single && (x as f32) as f64 != x {
+                    continue;
+                }
+                for col_left in [true, false] {
+                    let val = if single { E::V(VS::F32((x as f32).to_bits())) } else { E::V(VS::F64(x.to_bits())) };
+                    let col = E::QCol(0, 1);
+                    let e = if col_left { E::Bin(Box::new(col), op, Box::new(val)) } else { E::Bin(Box::new(val), op, Box::new(col)) };
+                    let mut s = SelectSpec::default();
+                    s.items = vec![Item { e: E::QCol(0, 0), alias: None, win: None }, Item { e, alias: None, win: None }];
+                    s.from = vec![FromSpec::Table(0, None)];
+                    s.orders = vec![OrdSpec { e: E::QCol(0, 0), dir: Dir::Asc, nulls: None }];
+                    v.push(Case { stmt: Stmt::Select(s) });
+                }
+            }
+        }
+    }
+    v
 }
 
 pub fn replay(_part: &str, case: &J, obs: &mut Obs) -> R {
